@@ -27,6 +27,7 @@ type Program struct {
 
 	globOnce sync.Once
 	globMut  map[*ssa.Global]bool
+	globInit map[*ssa.Global]bool
 }
 
 // LoadProgram loads the given package patterns of /repo's working tree (and their deps) into SSA.
